@@ -268,7 +268,7 @@ func c25Len(rt *rapid.T, i int, last bool) (int, string) {
 
 func c25Draw(rt *rapid.T, modes []wmode) (*c25Stream, []string, string) {
 	s := &c25Stream{RekeyAt: -1}
-	s.Mode = modes[rapid.IntRange(0, len(modes)-1).Draw(rt, "mode")]
+	s.Mode = drawMode(rt, "mode", modes)
 	s.S2C = rapid.Bool().Draw(rt, "serverToClient")
 	h := rapid.SampledFrom(c25Hashes).Draw(rt, "hash")
 	d := newDRBG(rapid.Uint64().Draw(rt, "secretSeed"))
@@ -307,7 +307,7 @@ func c25Draw(rt *rapid.T, modes []wmode) (*c25Stream, []string, string) {
 	if n >= 2 && rapid.IntRange(0, 5).Draw(rt, "rekey") == 0 {
 		s.RekeyAt = rapid.IntRange(0, n-2).Draw(rt, "rekeyAt")
 		s.Payloads[s.RekeyAt] = []byte{21}
-		s.Mode2 = modes[rapid.IntRange(0, len(modes)-1).Draw(rt, "mode2")]
+		s.Mode2 = drawMode(rt, "mode2", modes)
 		s.Sec2 = makeSecrets(h, d, klen)
 		s.Sec2.SessionID = s.Sec.SessionID
 		s.Strict = rapid.Bool().Draw(rt, "strict")
@@ -385,6 +385,15 @@ func TestC25(t *testing.T) {
 			c.Assumption("algorithm " + n + " named by the property is not offered by this build of the package")
 		}
 	}
+	for _, r := range refusedModes {
+		c.Assumption("the package refuses to construct " + r + " (CBC with an EtM MAC): combination not supported, nothing to check")
+	}
+	for _, m := range modes {
+		if v := f81Report(c, m); v != "" {
+			c.Violation(v, "")
+			t.Fatalf("VF-VIOLATION: property=C25 %s", v)
+		}
+	}
 	_, f3Listed := ev.IsKnownFinding("F3")
 
 	rapid.Check(t, func(rt *rapid.T) {
@@ -399,6 +408,13 @@ func TestC25(t *testing.T) {
 		}
 		if res.refused > 0 {
 			classes = append(classes, "near-max:writer-refused")
+		}
+		if f81Observed(s.Mode) || (s.RekeyAt >= 0 && f81Observed(s.Mode2)) {
+			// finding F81 (listed, else the run failed above): the EtM framing
+			// assertion is excluded for this class, the stream was decoded as
+			// the encrypt-and-MAC packets the package really writes
+			c.Excluded()
+			classes = append(classes, "F81-class:checked-as-encrypt-and-MAC")
 		}
 		c.Case(c25NonTrivial(s, classes[0]), key, classes...)
 		c.Evals(len(s.Payloads) - 1)
